@@ -348,8 +348,12 @@ package postgres
 
 // Graceful shutdown deletes the stored data only when the operator asked for it (C06).
 //@ func (*PostgresStore).Stop
-//@ props C06
+//@ props C06 C01 C02 C03 C04 C05 C07 C08 C09 C10 C20
 //@ nopanic C13
+// Stop itself deletes nothing and drops nothing: only Reset does, and only when configured
+//@ site call Remove assert false
+//@ site call RemoveAll assert false
+//@ site call Exec assert false
 //@ requires s != nil && s.config != nil && s.db != nil && s.sq != nil && !closed(s.sq)
 //@ site call Reset assert s.config.Reset
 
@@ -384,3 +388,16 @@ package postgres
 //@ site loop 2 call EnqueueCQE assert arg0 == cqe
 //@ site loop 2 backedge assert itercalls("EnqueueCQE") == 1
 //@ site return assert !ok
+
+// Start-up creates the schema if it is not there and deletes nothing (every property about stored data: what was
+// acknowledged before a stop or a kill is what the next start finds - including the engine's own recovery
+// files next to the database).
+//@ func (*PostgresStore).Start
+//@ props C06 C01 C02 C03 C04 C05 C07 C08 C09 C10 C20
+//@ abstract-calls .*
+//@ requires s != nil && s.db != nil
+//@ site call Remove assert false
+//@ site call RemoveAll assert false
+//@ site call Truncate assert false
+//@ site call Reset assert false
+//@ site call Exec assert db == s.db && query == CREATE_TABLE_STATEMENT
